@@ -6,6 +6,9 @@
 //!   `c05.sigrules <v>`           → `<t|f> <t|f>`     (check_event_id_server, check_join_authorised…; SPEC op)
 //!   `c05.content <event>`        → `ok <base64>` | `err size`
 //!   `c05.ref <v> <event>`        → `ok <base64>` | `err size` | `err other`
+//!   `c05.eventid <v> <event>`    → `none` (format V1) | `ok $<base64>` | `err size` | `err other`
+//!                                  (ruma has no function for this step; the op does what callers do:
+//!                                  `format!("${}", reference_hash(..)?)`, parsed by the real `EventId`)
 //!   `c05.sha s<hex bytes>`       → `ok <hex digest>`       (Lean reference SHA-256 vs the `sha2` crate)
 //!   `c05.b64 <std|url> s<hex>`   → `ok <base64>`           (Lean base64 vs the `base64` crate)
 use base64::{
@@ -20,7 +23,7 @@ use h_lib::{
 use ruma_common::{
     canonical_json::{redact, RedactedBecause},
     room_version_rules::{EventIdFormatVersion, RoomVersionRules},
-    CanonicalJsonObject, CanonicalJsonValue,
+    CanonicalJsonObject, CanonicalJsonValue, EventId,
 };
 use ruma_signatures::{content_hash, hash_and_sign_event, reference_hash, Ed25519KeyPair, Error};
 use serde_json::{json, Value};
@@ -275,6 +278,79 @@ fn run_ref(ver: u32, o: CanonicalJsonObject, req: &str) -> Outcome {
     Outcome { imp, t3 }
 }
 
+/// The event ID of a hash-ID room version, formed the way ruma's callers form it
+/// (`format!("${}", reference_hash(object, rules)?)`) and parsed by the real `EventId` parser.
+/// T3: the real parser accepts it, finds no server name and the hash as localpart; it is `$` + 43
+/// characters of the alphabet the SPEC prescribes; it equals the independent recomputation; the
+/// redacted copy and `unsigned`/`signatures` variants have the same ID.
+fn run_eventid(ver: u32, o: CanonicalJsonObject, req: &str) -> Outcome {
+    let mut t3 = Vec::new();
+    let mut rng = Rng::new(fnv(req));
+    let rules = rules(ver);
+    if matches!(rules.event_id_format, EventIdFormatVersion::V1) {
+        return Outcome::new("none".to_owned());
+    }
+    let form = |o: &CanonicalJsonObject| -> String {
+        match reference_hash(o, &rules) {
+            Ok(h) => format!("ok ${h}"),
+            Err(Error::PduSize) => "err size".into(),
+            Err(_) => "err other".into(),
+        }
+    };
+    let imp = form(&o);
+    if let Some(id) = imp.strip_prefix("ok ") {
+        match <&EventId>::try_from(id) {
+            Ok(eid) => {
+                if eid.server_name().is_some() {
+                    t3.push(format!("hash event ID `{id}` has a server name for the real parser"));
+                }
+                if format!("${}", eid.localpart()) != id {
+                    t3.push(format!("localpart of `{id}` is `{}`", eid.localpart()));
+                }
+            }
+            Err(e) => t3.push(format!("`${{reference_hash}}` = `{id}` is rejected by EventId::try_from: {e}")),
+        }
+        let body = &id[1..];
+        let allowed: &[u8] = if ver <= 3 { b"+/" } else { b"-_" };
+        if body.len() != 43
+            || !body.bytes().all(|b| b.is_ascii_alphanumeric() || allowed.contains(&b))
+        {
+            t3.push(format!("event ID `{id}` is not `$` + 43 characters of the version's base64 alphabet"));
+        }
+    }
+    // independent recomputation with the alphabet the specification prescribes
+    let redacted = redact(o.clone(), &rules.redaction, None);
+    let expect = match &redacted {
+        Err(_) => "err other".to_owned(),
+        Ok(red) => {
+            let pre = bytes_of(&without(red, &["signatures", "unsigned"]));
+            if pre.len() > MAX_PDU {
+                "err size".to_owned()
+            } else {
+                format!("ok ${}", spec_engine(ver).encode(Sha256::digest(&pre)))
+            }
+        }
+    };
+    if imp != expect {
+        t3.push(format!("event ID differs from `$` + base64(sha256(redacted canonical JSON)): got `{imp}`, expected `{expect}`"));
+    }
+    if let Ok(red) = &redacted {
+        let r = form(red);
+        if r != imp {
+            t3.push(format!("event ID of the redacted copy differs: `{imp}` vs `{r}`"));
+        }
+    }
+    for f in ["unsigned", "signatures"] {
+        for var in uncovered_variants(&o, f, &mut rng) {
+            let r = form(&var);
+            if r != imp {
+                t3.push(format!("event ID depends on `{f}`: `{imp}` vs `{r}`"));
+            }
+        }
+    }
+    Outcome { imp, t3 }
+}
+
 /// Behavioural: which alphabet does `reference_hash` use for this version? Probe events until the
 /// digest contains one of the two characters the alphabets differ in.
 /// `hashes.sha256` written by `hash_and_sign_event` (observe_at of C05): whatever the event carried
@@ -400,6 +476,18 @@ pub fn run(req: &str) -> Outcome {
                 return bad();
             }
             run_ref(ver, ev, req)
+        }
+        "c05.eventid" => {
+            let Some(ver) = toks.get(1).and_then(|t| t.parse::<u32>().ok()) else { return bad() };
+            if !(1..=11).contains(&ver) {
+                return bad();
+            }
+            let mut it = toks[2..].iter();
+            let Some(ev) = cj_parse_obj(&mut it) else { return bad() };
+            if it.next().is_some() {
+                return bad();
+            }
+            run_eventid(ver, ev, req)
         }
         "c05.sha" => {
             let Some(b) = toks.get(1).and_then(|t| t.strip_prefix('s')).and_then(h_util::unhex) else {
@@ -699,6 +787,17 @@ fn gen(rng: &mut Rng, n: usize, tier: &str) -> Vec<Req> {
         let e = to_cj_obj(Value::Object(ev));
         let ver = rng.range(1, 11) as u32;
         v.push(Req::new(format!("c05.stored {ver} {}", cj_obj_toks(&e)), "stored"));
+    }
+    // event IDs: every version once on a well-formed event (1, 2: `none`), then random versions,
+    // some malformed events (redaction errors) among them
+    for ver in 1..=11u32 {
+        let e = to_cj_obj(Value::Object(gen_event(rng, false)));
+        v.push(Req::new(format!("c05.eventid {ver} {}", cj_obj_toks(&e)), "eventid"));
+    }
+    for i in 0..(n / 10).max(60) {
+        let e = to_cj_obj(Value::Object(gen_event(rng, i % 5 == 0)));
+        let ver = rng.range(1, 11) as u32;
+        v.push(Req::new(format!("c05.eventid {ver} {}", cj_obj_toks(&e)), "eventid"));
     }
     for _ in 0..n {
         let ev = to_cj_obj(Value::Object(gen_event(rng, true)));
